@@ -12,7 +12,8 @@ if go test -vet=off -count=1 ./... > /tmp/suite-$id.log 2>&1; then echo "suite w
 mv /tmp/demo-$id.go.bak $demo
 names=$(grep -o 'func Test[A-Za-z0-9_]*' $demo | sed 's/func //' | paste -sd'|')
 if go test -vet=off -count=1 -run "^($names)\$" $pkg > /tmp/demo-with-$id.log 2>&1; then echo "demo with change: PASS (unexpected)"; else echo "demo with change: FAIL (expected)"; fi
-git stash -q
+git diff > /tmp/vs-$id.diff
+git apply -R /tmp/vs-$id.diff
 if go test -vet=off -count=1 -run "^($names)\$" $pkg > /tmp/demo-without-$id.log 2>&1; then echo "demo without change: PASS (expected)"; else echo "demo without change: FAIL (unexpected)"; tail -5 /tmp/demo-without-$id.log; fi
-git stash pop -q
+git apply /tmp/vs-$id.diff
 git diff --stat | tail -1
